@@ -378,6 +378,13 @@ func (glue_{{.V}}) MakeToken(name, lit string, off, line, col int) interface{} {
 	return &token_{{.V}}.Token{Type: typ, Lit: []byte(lit), Pos: token_{{.V}}.Pos{Offset: off, Line: line, Column: col}}
 }
 
+func (glue_{{.V}}) MutateToken(x interface{}) {
+	if t, ok := x.(*token_{{.V}}.Token); ok && t != nil {
+		t.Lit = t.Lit[:len(t.Lit)/2] // e.g. an action that trims the literal in place (slice header only)
+		t.Pos.Column += 1000
+	}
+}
+
 func (glue_{{.V}}) TokInfo(x interface{}) (harness.TokInfo, bool) {
 	t, ok := x.(*token_{{.V}}.Token)
 	if !ok || t == nil {
